@@ -236,9 +236,64 @@ class FieldIndices(FragmentTask):
         ctx.oblige("post.second-indices-follow-the-requested-names", list(g2) == e2 if isinstance(g2, (list, tuple)) else False, "P", note=f"{g2} vs {e2}")
 
 
+class SameMesh(Task):
+    """PlotfileCooker.__eq__ (combine's compatibility test): True only when both readers expose the same number of levels and,
+    on every level, np.allclose physical box bounds AND np.allclose index ranges - of the OTHER reader, box by box; so two
+    plotfiles whose boxes differ in index range (same physical decomposition at another resolution) or in physical bounds are
+    refused.  Levels a skeleton parameter (2), boxes per level symbolic; np.allclose by its elementwise contract."""
+    prop = "C06"
+    reach = "S"
+    qual = PC + "__eq__"
+
+    def __init__(self, la=1, lb=1):
+        self.la, self.lb = la, lb
+        self.name = f"PlotfileCooker.__eq__[limits={la},{lb}]"
+
+    def setup(self, ex):
+        ctx = ex.ctx
+        R = z3.RealSort()
+        nl = 2
+        NB = [z3.Int(f"nb{lv}") for lv in range(nl)]
+        for n in NB:
+            ctx.assume(n >= 1)
+        mk = lambda tag: dict(BX=z3.Function(f"BX{tag}", I, I, I, I, R), IX=z3.Function(f"IX{tag}", I, I, I, I, I))
+        A, Bm = mk("a"), mk("b")
+
+        def cooker(m, lim):
+            boxes = [NDArray([NB[lv], 3, 2], lambda ix, lv=lv: m["BX"](lv, *[to_z3(i) for i in ix]), "f8") for lv in range(nl)]
+            cells = [{"indexes": NDArray([NB[lv], 2, 3], lambda ix, lv=lv: m["IX"](lv, *[to_z3(i) for i in ix]), "int")} for lv in range(nl)]
+            return Record("amr_kitchen.plotfile_cooker.PlotfileCooker", limit_level=lim, boxes=boxes, cells=cells)
+        la, lb = self.la, self.lb
+        return {"self": cooker(A, la), "args": [cooker(Bm, lb)], "A": A, "B": Bm, "NB": NB, "la": la, "lb": lb}
+
+    def post(self, ex, inp, out):
+        ctx = ex.ctx
+        ctx.oblige("raises-nothing", out.kind == "ret", "P", note=str(out.exc) if out.kind != "ret" else "")
+        if out.kind != "ret":
+            return
+        v = out.value
+        if v is not True and not (is_z3(v) and z3.is_true(z3.simplify(v))):
+            if v is False:
+                return        # refusing is always safe for combine
+            ctx.oblige("post.returns-a-boolean", isinstance(v, bool) or is_z3(v), "P")
+            return
+        A, Bm, NB, la, lb = inp["A"], inp["B"], inp["NB"], inp["la"], inp["lb"]
+        ctx.oblige("post.equal-only-with-the-same-number-of-levels", la == lb, "P")
+        lv, b, s_, d = ctx.fresh("lv"), ctx.fresh("b"), ctx.fresh("s"), ctx.fresh("d")
+        for L in range(2):
+            if la < L:
+                continue
+            inr = z3.And(b >= 0, b < NB[L], s_ >= 0, s_ < 2, d >= 0, d < 3)
+            close = lambda x, y: z3.If(x - y >= 0, x - y, y - x) <= to_real(1e-8) + to_real(1e-5) * z3.If(y >= 0, y, -y)
+            ctx.oblige(f"post.equal-only-with-close-index-ranges-of-the-other-reader[level {L}]",
+                       z3.Implies(inr, close(to_real(A["IX"](L, b, s_, d)), to_real(Bm["IX"](L, b, s_, d)))), "P")
+            ctx.oblige(f"post.equal-only-with-close-physical-bounds-of-the-other-reader[level {L}]",
+                       z3.Implies(inr, close(A["BX"](L, b, d, s_), Bm["BX"](L, b, d, s_))), "P")
+
+
 def parent_tasks(tier):
     return [ModeDecision(True), ModeDecision(False), OffsetMap(), MatchedOffsets(), BinfileOutput(), CombineScatter(),
-            FieldIndices(["gamma", "alpha"], ["tau"]), FieldIndices(["beta"], ["tau", "sigma"]), FieldIndices(["alpha", "beta", "gamma"], ["sigma", "tau"])]
+            SameMesh(1, 1), SameMesh(0, 0), SameMesh(1, 0), FieldIndices(["gamma", "alpha"], ["tau"]), FieldIndices(["beta"], ["tau", "sigma"]), FieldIndices(["alpha", "beta", "gamma"], ["sigma", "tau"])]
 
 
 def parent_canaries():
@@ -254,7 +309,11 @@ def parent_canaries():
              ["by_matched_offsets_output"]),
             ("combine: component indices in plotfile order instead of the requested order",
              [(f, "    vidxs1 = [pck1.fields[v] for v in vars1]", "    vidxs1 = [idx for fld, idx in pck1.fields.items() if fld in vars1]")],
-             ["combine.field-indices[gamma,alpha|tau]"])]
+             ["combine.field-indices[gamma,alpha|tau]"]),
+            ("__eq__: index ranges compared with themselves",
+             [(g, "            if not np.allclose(self.cells[lv]['indexes'],\n                               other.cells[lv]['indexes']):",
+               "            if not np.allclose(self.cells[lv]['indexes'],\n                               self.cells[lv]['indexes']):")],
+             ["PlotfileCooker.__eq__[limits=1,1]"])]
 
 
 def tasks(tier):
